@@ -68,7 +68,7 @@ def run_histories(chk: core.Check, n_hist: int, max_ops: int, compare_runs: bool
         st = T.parse_state(ans)
         mg = T.grid_of_spec(st["cols"], st["rows"])
         ig = T.grid_of_spec(cs, rs)
-        if mg.cells() != ig.cells() or mg.ncols != ig.ncols:
+        if not T.same(mg.cells(), ig.cells()) or mg.ncols != ig.ncols:
             chk.disagree({**case, "line": line, "impl": [cs, rs], "model": [st["cols"], st["rows"]]}, "model grid != implementation grid (lxml reading)")
         elif compare_runs and (st["cols"] != cs or st["rows"] != rs):
             chk.disagree({**case, "line": line, "impl": [cs, rs], "model": [st["cols"], st["rows"]]}, "same grid, different run-length structure")
@@ -114,10 +114,10 @@ def run_row_histories(chk: core.Check, n_hist: int, fresh_check: bool = True):
                 bad = T.row_reads(row, ref, rng)
                 if not bad and fresh_check:
                     fr = Element.from_tag(row.serialize())
-                    if fr.get_values() != row.get_values() or fr.width != row.width:
+                    if not T.same(fr.get_values(), row.get_values()) or fr.width != row.width:
                         bad = [("fresh parse of the row", fr.get_values(), row.get_values())]
                 if not bad and table is not None:
-                    if table.get_values()[0][: len(ref)] != [c[0] for c in ref] or (ref and table.get_value((len(ref) - 1, 0)) != ref[-1][0]):
+                    if not T.same(table.get_values()[0][: len(ref)], [c[0] for c in ref]) or (ref and not T.same(table.get_value((len(ref) - 1, 0)), ref[-1][0])):
                         bad = [("table read of the live row", table.get_values()[0], [c[0] for c in ref])]
             except Exception as e:  # noqa: BLE001
                 chk.fail({**case, "exception": repr(e)}, f"a read of the row raised {type(e).__name__}")
@@ -140,7 +140,7 @@ def run_row_histories(chk: core.Check, n_hist: int, fresh_check: bool = True):
         def _exp(spec):
             return T.expand_line([(T.id_pay(int(c.split("*")[0])), int(c.split("*")[1])) for c in ([] if spec == "e" else spec.split(","))])
 
-        if _exp(got) != _exp(cells):
+        if not T.same(_exp(got), _exp(cells)):
             chk.disagree({**case, "line": line, "impl": cells, "model": got}, "Row: model cells != implementation cells")
 
 
